@@ -1,10 +1,12 @@
 import Driver.Plugin
 import Driver.Plug.Sched
+import Driver.Plug.InlineDepth
 /-! The list of plug-in models (one import and one entry per model). -/
 namespace Driver
 
 def plugins : List (String × Plug) := [
-  ("sched", Driver.PlugSched.plug)
+  ("sched", Driver.PlugSched.plug),
+  ("inlinedepth", Driver.PlugInlineDepth.plug)
 ]
 
 end Driver
